@@ -429,6 +429,25 @@ func (c *ValueCase) Prepare() error {
 	return nil
 }
 
+// scribble changes a value that was read in place (what a careless application does with a decoded document):
+// nothing that is stored may change through that.
+func scribble(v any) {
+	switch t := v.(type) {
+	case map[string]any:
+		for _, x := range t {
+			scribble(x)
+		}
+		t["zz-scribbled"] = true
+	case []any:
+		for _, x := range t {
+			scribble(x)
+		}
+		if len(t) > 0 {
+			t[0] = "zz-scribbled"
+		}
+	}
+}
+
 func itemOut(it data.IItem) map[string]any {
 	if it == nil {
 		return map[string]any{"nil": true}
@@ -471,6 +490,11 @@ func (c *ValueCase) Main() {
 			first[k] = itemOut(it)
 		}
 		obs["vars-at-start"] = first
+		for _, it := range proc.Locator().CloneVariables() {
+			if it != nil {
+				scribble(it.Value())
+			}
+		}
 		for tr := range traces {
 			u := tracing.Unwrap(tr)
 			switch t := u.(type) {
@@ -517,6 +541,21 @@ func (c *ValueCase) Main() {
 						hs[k] = v
 					}
 					obs["headers"] = hs
+					for _, it := range t.GetDataObjects() {
+						if it != nil {
+							scribble(it.Value())
+						}
+					}
+					for _, it := range t.GetProperties() {
+						if it != nil {
+							scribble(it.Value())
+						}
+					}
+					for _, it := range proc.Locator().CloneVariables() {
+						if it != nil {
+							scribble(it.Value())
+						}
+					}
 					res := map[string]any{}
 					for _, o := range c.Over {
 						if o.Via == "t2" {
